@@ -1,8 +1,8 @@
 #!/usr/bin/env python3
 """Writes the TLC configurations of Lock.tla (root module MCLock.tla). Run in this directory after changing the table."""
-INV = 'INVARIANTS TypeOK MutualExclusion DoneBeforeRelease NoLostWakeup CountersOK NoStaleKeys ExtendsOwnKeyOnly CancelAtMajorityLoss'
+INV = 'INVARIANTS TypeOK MutualExclusion DoneBeforeRelease NoLostWakeup CountersOK NoStaleKeys ExtendsOwnKeyOnly CancelAtMajorityLoss LostCounterOK'
 D = dict(procs='{1, 2}', cl='C12', mode='MWT', calls=1, io=0, acq=0, xd=0, xp=0, dc=0, sc=0, noloop='TRUE', asyn='FALSE',
-         fix='TRUE', fixt='TRUE', fixh='TRUE', bE='FALSE', bT='FALSE', bI='FALSE', inv=INV, props='', spec='Spec', rec='FALSE', genlen=0,
+         fix='TRUE', fixt='TRUE', fixh='TRUE', bE='FALSE', bT='FALSE', bI='FALSE', bL='FALSE', bN='FALSE', dpo='FALSE', inv=INV, props='', spec='Spec', rec='FALSE', genlen=0,
          extra='')
 CFGS = {
     # quick: exhaustive, small
@@ -20,6 +20,15 @@ CFGS = {
     'MC_lock_neg_token': dict(xd=1, bE='TRUE', inv='INVARIANTS ExtendsOwnKeyOnly'),
     'MC_lock_neg_thresh': dict(xd=2, bT='TRUE', inv='INVARIANTS CancelAtMajorityLoss'),
     'MC_lock_neg_inval': dict(mode='MWW', bI='TRUE', inv='INVARIANTS NoLostWakeup'),
+    # round 2: causes of loss in every combination (one holder), connection loss of a waiter's client
+    'MC_lock_q8': dict(procs='{1}', cl='C1', mode='MW', io=2, xd=2, xp=2),
+    'MC_lock_q9': dict(dc=1, dpo='TRUE'),                                   # with + try on two clients, a connection drops
+    'MC_lock_neg_mixed': dict(procs='{1}', cl='C1', mode='MW', io=1, xd=1, bL='TRUE', inv='INVARIANTS CancelAtMajorityLoss'),
+    'MC_lock_neg_nilinval': dict(dc=1, dpo='TRUE', bN='TRUE', inv='INVARIANTS NoLostWakeup'),
+    'MC_lock_live_mixed': dict(procs='{1}', cl='C1', mode='MW', io=1, xd=1, xp=1, bL='TRUE', inv='', props='PROPERTIES Prompt', spec='FairLibSpec'),
+    # exhaustive generation of the majority-loss cases (one holder, every combination of causes)
+    'MC_lock_lossgen': dict(procs='{1}', cl='C1', mode='MW', io=2, xd=2, xp=2, rec='TRUE', genlen=2, inv='INVARIANTS LossEmit', extra='CONSTRAINT LossStop\nVIEW LossView'),
+    'MC_lock_lossgen3': dict(procs='{1}', cl='C1', mode='MW', io=2, xd=2, xp=2, rec='TRUE', genlen=3, inv='INVARIANTS LossEmit', extra='CONSTRAINT LossStop\nVIEW LossView'),
     # liveness under fairness
     'MC_lock_live_wait': dict(mode='MWW', xd=1, inv='', props='PROPERTIES WaitersAcquire', spec='FairSpec'),
     'MC_lock_live_prompt': dict(procs='{1}', cl='C1', mode='MW', xd=2, inv='', props='PROPERTIES Prompt', spec='FairLibSpec'),
@@ -32,6 +41,7 @@ CFGS = {
     'MC_lock_t4': dict(mode='MTF'),                             # try + forced take-over
     'MC_lock_t7': dict(acq=2),
     'MC_lock_t5': dict(mode='MWW', sc=1, cl='C11'),
+    'MC_lock_t8': dict(mode='MWW', dc=1),                       # two WithContext callers, a connection drops (190 840 states)
     # scenario generation (simulation mode): the code as found, every kind of environment step
     'MC_lock_gen': dict(procs='{1, 2, 3}', cl='C112', mode='MWWT', calls=2, io=2, acq=2, xd=1, xp=1, dc=1, sc=1,
                         fix='FALSE', fixt='FALSE', fixh='FALSE', rec='TRUE', genlen=36, inv='INVARIANTS GenEmit', extra='CONSTRAINT GenStop'),
@@ -58,6 +68,9 @@ CONSTANTS
   BugExtendNoToken = {bE}
   BugThreshold = {bT}
   BugIgnoreInval = {bI}
+  BugLostByCause = {bL}
+  BugNilNoGate = {bN}
+  DiscParkedOnly = {dpo}
   Record = {rec}
   GenLen = {genlen}
 {inv}
